@@ -50,6 +50,10 @@ const POOL: &[(&str, &str)] = &[
     ("R1p", "/1+/"),
     ("Rab1p", "/[ab1]+/"),
     ("Rcq1", "/c?1/"),
+    // alternations whose text starts with `(` and ends with `)` without being one group
+    ("Rgrp", "/(ab)|(c)/"),
+    ("Rgrp2", "/(a+)|(b1)/"),
+    ("Rgrp3", "/(c)|(1+)|(ba)/"),
 ];
 
 #[derive(Clone, Debug)]
